@@ -139,4 +139,45 @@ theorem diagM2_spec' (m : M3 ℝ) (d : Eig6 ℝ) (h : diagM2 m = .ok d) :
     · rw [ofInt_eq]; norm_num
     · rw [hm12, zero_eq]; ring
 
+/-- over ℝ the two `RAS(ref_math_divisible(·, l))` guards of diag_m2 always pass: the closed form is total -/
+theorem diagM2_total' (m : M3 ℝ) : ∃ d, diagM2 m = .ok d := by
+  have h5 : (Scalar.ofDec 5 (-1) : ℝ) = 1 / 2 := by
+    rw [ofDec_eq]; norm_num
+  unfold diagM2
+  simp only [isFinite_eq, Bool.and_self, Bool.not_true, Bool.false_eq_true, if_false, h5]
+  set c2 : ℝ := Scalar.mul (1 / 2) (Scalar.sub m.m11 m.m22) with hc2
+  set norm : ℝ := Scalar.cmax (Scalar.cabs c2) (Scalar.cabs m.m12) with hnorm
+  have hnorm' : norm = max |c2| |m.m12| := by rw [hnorm, cmax_eq, cabs_eq, cabs_eq]
+  by_cases hdiv : (Scalar.divisible c2 norm && Scalar.divisible m.m12 norm) = true
+  · rw [if_pos hdiv]
+    have hn0 : norm ≠ 0 := divisible_ne_zero (Bool.and_eq_true_iff.mp hdiv).1
+    simp only [div_eq, mul_eq, add_eq, sqrt_eq]
+    set a := c2 / norm with ha
+    set b := m.m12 / norm with hb
+    set l := Real.sqrt (a * a + b * b) with hl
+    have hab : a ≠ 0 ∨ b ≠ 0 := by
+      by_contra hcon
+      rw [not_or, not_not, not_not] at hcon
+      obtain ⟨h1, h2⟩ := hcon
+      rw [ha, div_eq_zero_iff] at h1
+      rw [hb, div_eq_zero_iff] at h2
+      have e1 : c2 = 0 := h1.resolve_right hn0
+      have e2 : m.m12 = 0 := h2.resolve_right hn0
+      apply hn0
+      rw [hnorm', e1, e2, abs_zero, max_self]
+    have hlpos : 0 < l := by
+      rw [hl]; apply Real.sqrt_pos.mpr
+      rcases hab with h | h
+      · have := mul_self_pos.mpr h; nlinarith [mul_self_nonneg b]
+      · have := mul_self_pos.mpr h; nlinarith [mul_self_nonneg a]
+    have g1 : Scalar.divisible a l = true := by
+      apply divisible_of_le hlpos
+      rw [hl]; apply Real.abs_le_sqrt; nlinarith [mul_self_nonneg b]
+    have g2 : Scalar.divisible b l = true := by
+      apply divisible_of_le hlpos
+      rw [hl]; apply Real.abs_le_sqrt; nlinarith [mul_self_nonneg a]
+    simp only [g1, g2, Bool.not_true, Bool.false_eq_true, if_false]
+    split_ifs <;> exact ⟨_, rfl⟩
+  · rw [if_neg hdiv]; exact ⟨_, rfl⟩
+
 end Refine.Model.Matrix
